@@ -112,6 +112,18 @@ def build(P):
             ents = keep
         for k, ch in enumerate(chunks(ents, 600)):
             yield ("value-grid", [repl_case("C02-grid-%d" % k, ch, meta=dict(units=ch))])
+        # 1c. INTEGER exactness above 2^53: neighbours that collapse to one double, on every comparison and every exact operator, also against the
+        #     REAL of the same magnitude (an INTEGER/INTEGER operation that detours through REAL is visible only here)
+        bigs = ["9007199254740992", "9007199254740993", "9007199254740994", "9223372036854775806", "9223372036854775807", "- 9007199254740993", "- 9223372036854775807",
+                "4611686018427387905", "4611686018427387904", "9007199254740992.0", "1", "0"]
+        ents = []
+        for o in ["=", "<>", "<", "<=", ">", ">=", "+", "-", "*", "DIV", "MOD"]:
+            for a in bigs:
+                for b in bigs:
+                    ents.append("%s %s %s" % (a, o, b))
+        ents = list(dict.fromkeys(ents))
+        for k, ch in enumerate(chunks(ents, 600)):
+            yield ("big-integer-grid", [repl_case("C02-big-%d" % k, ch, meta=dict(units=ch))])
         # 2. DIV / MOD laws on a grid and at the 64-bit boundary
         grid = range(-40, 41) if tier == "thorough" else list(range(-12, 13)) + [-40, 40, 37, -37]
         bnd = [9223372036854775807, 9223372036854775806, 4611686018427387904, 3037000500, 2147483648, 4294967296]
@@ -255,8 +267,16 @@ def build(P):
         for s in ds + extra:
             lit = '"' + s + '"'
             ents += ["IS_NUM(%s)" % lit, "STR_TO_NUM(%s)" % lit, "REAL(%s)" % lit, "INTEGER(%s)" % lit]
-        for x in ["0.5", "1.25", "100.0", "3.141592", "0.000001", "123456.654321", "2.5", "1000000.0", "0.1", "7.0"]:
-            ents += ["NUM_TO_STR(%s)" % x, "STR_TO_NUM(NUM_TO_STR(%s)) = %s" % (x, x)]
+        # NUM_TO_STR: fractions, whole numbers on both sides of the 32-bit and 53-bit boundaries (REAL and INTEGER arguments), leading point / trailing point numerals
+        nts = ["0.5", "1.25", "100.0", "3.141592", "0.000001", "123456.654321", "2.5", "1000000.0", "0.1", "7.0", "0.0", "10.0", "50.0", "1200.0",
+               "2147483647.0", "2147483648.0", "2147483649.5", "5000000000.0", "3000000000.0", "4294967296.0", "9007199254740992.0", "1e15", "123456789012.0",
+               "2147483647", "2147483648", "5000000000", "9223372036854775807", "10", "0", "100"]
+        for x in nts:
+            for sg in ("", "- "):
+                ents += ["NUM_TO_STR(%s%s)" % (sg, x), "STR_TO_NUM(NUM_TO_STR(%s%s)) = %s%s" % (sg, x, sg, x), "\"[\" & %s%s & \"]\"" % (sg, x)]
+        for s_ in [".5", ".25", "5.", "-.5", "+.5", "0.5", ".", "-.", "00.5", ".5e1"]:
+            lit = '"' + s_ + '"'
+            ents += ["IS_NUM(%s)" % lit, "STR_TO_NUM(%s)" % lit, "REAL(%s)" % lit, "INTEGER(%s)" % lit]
         for x in ["2.7", "-2.7", "-2.0", "0.0", "-0.5", "1e3", "9007199254740993.0", "-9007199254740993.0", "5"]:
             if "e" in x: continue
             ents.append("INT(%s)" % x.replace("-", "- "))
@@ -349,6 +369,39 @@ def build(P):
                     ents.append("%d/%d/%d %s %d/%d/%d" % (a.day, a.month, a.year, o, b.day, b.month, b.year))
         for k, ch in enumerate(chunks(ents, 3000)):
             yield ("comparisons", [repl_case("C18-cmp-%d" % k, ch, meta=dict(units=ch, oracle="cmp"))])
+
+        # dates that are evaluated more than once or that travel: a literal inside a routine called from several entries (the parsed body is kept), a date in a loop,
+        # dates through variables, arrays, record fields, BYVAL / RETURN, a text file and a random file — then components, weekday and every comparison
+        sess = []
+        for bad in ["30/2/2021", "29/2/2023", "31/4/2020", "0/1/2020", "1/13/2020", "32/1/2020"]:
+            sess += ["FUNCTION BadDate() RETURNS DATE\nRETURN %s\nENDFUNCTION" % bad, "BadDate()", "BadDate()", "DAY(BadDate())", "BadDate() = BadDate()",
+                     "PROCEDURE ShowBad()\nOUTPUT %s\nENDPROCEDURE" % bad, "CALL ShowBad()", "CALL ShowBad()", "CALL ShowBad()"]
+        sess += ["FUNCTION GoodDate() RETURNS DATE\nRETURN 29/2/2024\nENDFUNCTION", "GoodDate()", "GoodDate()", "GoodDate() = 29/2/2024", "DAYINDEX(GoodDate())"]
+        yield ("re-evaluation", [repl_case("C18-reeval", sess, meta=dict(units=sess))])
+        pairs = [("15/6/2021", "1/1/2001"), ("1/1/2001", "15/6/2021"), ("31/12/1999", "1/1/2000"), ("29/2/2024", "28/2/2024"), ("1/2/2020", "31/1/2020")]
+        sess = ["TYPE DRec\nDECLARE d : DATE\nDECLARE k : INTEGER\nENDTYPE", "DECLARE v, w : DATE", "DECLARE arr : ARRAY[1:2] OF DATE", "DECLARE rec, rec2 : DRec",
+                "FUNCTION Same(x : DATE) RETURNS DATE\nRETURN x\nENDFUNCTION", "PROCEDURE SetIt(BYREF x : DATE, y : DATE)\nx <- y\nENDPROCEDURE"]
+        def probes(e, lit, other):
+            out = ["DAY(%s) * 1000000 + MONTH(%s) * 10000 + YEAR(%s)" % (e, e, e), "DAYINDEX(%s)" % e, "%s" % e]
+            for o in ["=", "<>", "<", "<=", ">", ">="]:
+                out += ["%s %s %s" % (e, o, lit), "%s %s %s" % (e, o, other), "%s %s %s" % (other, o, e)]
+            return out
+        for n_, (a, b) in enumerate(pairs):
+            fn = "c18_%d.dat" % n_
+            sess += ["v <- %s" % b, "v <- %s" % a] + probes("v", a, b)
+            sess += ["arr[2] <- %s" % b, "arr[2] <- %s" % a] + probes("arr[2]", a, b)
+            sess += ["rec.d <- %s" % b, "rec.d <- %s" % a, "rec2 <- rec"] + probes("rec2.d", a, b)
+            sess += ["w <- %s" % b, "CALL SetIt(w, %s)" % a] + probes("w", a, b) + probes("Same(%s)" % a, a, b)
+            # through a random file: the variable holds the OTHER date before the record is read
+            sess += ["OPENFILE \"%s\" FOR RANDOM" % fn, "v <- %s" % a, "PUTRECORD \"%s\", v" % fn, "rec.d <- %s" % a, "SEEK \"%s\", 2" % fn, "PUTRECORD \"%s\", rec" % fn,
+                     "v <- %s" % b, "rec.d <- %s" % b, "SEEK \"%s\", 1" % fn, "GETRECORD \"%s\", v" % fn] + probes("v", a, b)
+            sess += ["SEEK \"%s\", 2" % fn, "GETRECORD \"%s\", rec" % fn] + probes("rec.d", a, b)
+            sess += ["CLOSEFILE \"%s\"" % fn, "OPENFILE \"%s\" FOR RANDOM" % fn, "w <- %s" % b, "GETRECORD \"%s\", w" % fn] + probes("w", a, b) + ["CLOSEFILE \"%s\"" % fn]
+            # through a text file
+            tf = "c18_%d.txt" % n_
+            sess += ["OPENFILE \"%s\" FOR WRITE" % tf, "WRITEFILE \"%s\", %s" % (tf, a), "CLOSEFILE \"%s\"" % tf, "OPENFILE \"%s\" FOR READ" % tf, "w <- %s" % b,
+                     "READFILE \"%s\", w" % tf, "CLOSEFILE \"%s\"" % tf] + probes("w", a, b)
+        yield ("date-channels", [repl_case("C18-channels", sess, meta=dict(units=sess))])
 
     def c18_oracle(c, r, m):
         import re
@@ -445,7 +498,7 @@ def build(P):
             for b in range(1, 5):
                 if a == b: continue
                 A = ["A%d" % i for i in range(a)]; B = ["B%d" % i for i in range(b)]
-                for ch in ["name", "var", "arith", "byval", "return", "elem", "field"]:
+                for ch in ["name", "var", "arith", "byval", "return", "elem", "field", "getrecord", "getrecord0", "getrecord-field", "getrecord-elem"]:
                     lines = ["TYPE TA = (%s)" % ", ".join(A), "TYPE TB = (%s)" % ", ".join(B), "DECLARE x : TA", "DECLARE y : TB", "y <- %s" % B[-1], "x <- %s" % A[0],
                              "PROCEDURE P(p : TA)", "OUTPUT p", "ENDPROCEDURE", "FUNCTION F() RETURNS TA", "RETURN y", "ENDFUNCTION",
                              "DECLARE arr : ARRAY[1:2] OF TA", "TYPE R", "DECLARE f : TA", "ENDTYPE", "DECLARE rr : R", "OUTPUT \"before \", x"]
@@ -456,6 +509,12 @@ def build(P):
                     elif ch == "return": lines.append("x <- F()")
                     elif ch == "elem": lines.append("arr[1] <- y")
                     elif ch == "field": lines.append("rr.f <- y + 0")
+                    elif ch.startswith("getrecord"):
+                        # a TB value stored in a random file and read back into a TA target (variable, record with a TA field, array of TA)
+                        src, dst = {"getrecord": ("y", "x"), "getrecord0": ("y", "x"), "getrecord-field": ("rb", "rr"), "getrecord-elem": ("arrb", "arr")}[ch]
+                        lines += ["TYPE RB", "DECLARE f : TB", "ENDTYPE", "DECLARE rb : RB", "DECLARE arrb : ARRAY[1:2] OF TB", "rb.f <- %s" % B[0], "arrb[1] <- %s" % B[0], "arrb[2] <- %s" % B[-1]]
+                        if ch == "getrecord0": lines.append("y <- %s" % B[0])
+                        lines += ["OPENFILE \"c19x.dat\" FOR RANDOM", "PUTRECORD \"c19x.dat\", %s" % src, "SEEK \"c19x.dat\", 1", "GETRECORD \"c19x.dat\", %s" % dst]
                     lines += ["OUTPUT \"after \", x"]
                     progs.append(Case(id="C19-cross-%d-%d-%s" % (a, b, ch), prog=("\n".join(lines) + "\n").encode(), meta=dict(oracle="cross", units=["%d/%d/%s" % (a, b, ch)])))
         yield ("cross-type", progs)
